@@ -76,6 +76,15 @@ Theorem C12_unroll_correct_qubits : forall kK kM n c f ms,
 Proof. exact unroll_qubits. Qed.
 Print Assumptions C12_unroll_correct_qubits.
 
+(* D2, operation sequence: moment by moment, the completely unrolled circuit consists of exactly the leaves the
+   compositional semantics ops_nested prescribes (which operation, inverted or not, on which qubits; zipping of
+   sibling sub-circuits, reversal under negative repetitions, composed qubit maps included) *)
+Theorem C12_unroll_correct_ops : forall kK kM n c f ms,
+  mapped_circuit kK kM n true c f = Ok ms -> op_ok (OSub c f) = true ->
+  strip_circ ms = ops_nested false (fun q => q) (OSub c f).
+Proof. exact unroll_ops. Qed.
+Print Assumptions C12_unroll_correct_ops.
+
 (* the domain restriction is necessary on today's code (F7): zero repetitions *)
 Theorem C12_unroll_keys_refuted_zero : forall kK kM,
   mapped_circuit kK kM 2 true [[OLeaf (Leaf 10 false [0] [MK [] "a"] [] [])]] (SubF (RInt 0) None false [] [] [] [] [] None) = Ok []
@@ -154,7 +163,7 @@ Example C12_unroll_example :
   op_ok C12_example_op = true /\
   exists ms, match C12_example_op with OSub c f => mapped_circuit false false 4 true c f | _ => ErrValue end = Ok ms /\
              keyset_eqb (keys_flat ms) [MK ["p"; "x"; "0"]%string "c"; MK ["p"; "x"; "1"]%string "c"; MK ["p"; "y"; "0"]%string "c"; MK ["p"; "y"; "1"]%string "c"] = true /\
-             qubits_flat ms = [2].
-Proof. split; [reflexivity|]. eexists. split; [vm_compute; reflexivity|]. split; reflexivity. Qed.
+             qubits_flat ms = [2] /\ strip_circ ms = ops_nested false (fun q => q) C12_example_op.
+Proof. split; [reflexivity|]. eexists. split; [vm_compute; reflexivity|]. repeat split; reflexivity. Qed.
 Example C12_until_example : act_until nat S (fun n => Nat.eqb n 3) 5 0%nat = Ok 3%nat.
 Proof. reflexivity. Qed.
